@@ -206,18 +206,18 @@ func c16GenHOp() *rapid.Generator[c16HOp] {
 	return rapid.Custom(func(t *rapid.T) c16HOp {
 		k := c16U(t, "k", 100)
 		switch {
-		case k < 25:
-			return c16HOp{Kind: "issue", Slot: c16U(t, "slot", 4), Role: c16Pick(t, "role", []string{"read", "write", "admin"})}
-		case k < 42:
-			return c16HOp{Kind: "revoke", Slot: c16U(t, "slot", 4)}
+		case k < 24:
+			return c16HOp{Kind: "issue", Slot: c16U(t, "slot", 3), Role: c16Pick(t, "role", []string{"read", "write", "admin"})}
+		case k < 44:
+			return c16HOp{Kind: "revoke", Slot: c16U(t, "slot", 3)}
 		case k < 54:
 			return c16HOp{Kind: "snapshot"}
-		case k < 64:
+		case k < 62:
 			return c16HOp{Kind: "rewrite"}
-		case k < 72:
+		case k < 68:
 			return c16HOp{Kind: "write"}
-		case k < 80:
-			return c16HOp{Kind: c16Pick(t, "kvkind", []string{"kv_unrevoke", "kv_revoke"}), Slot: c16U(t, "slot", 4), By: c16U(t, "by", 4)}
+		case k < 76:
+			return c16HOp{Kind: c16Pick(t, "kvkind", []string{"kv_unrevoke", "kv_revoke"}), Slot: c16U(t, "slot", 3), By: c16U(t, "by", 3)}
 		default:
 			return c16HOp{Kind: "restart"}
 		}
@@ -226,7 +226,7 @@ func c16GenHOp() *rapid.Generator[c16HOp] {
 
 func c16GenHistory() *rapid.Generator[c16History] {
 	return rapid.Custom(func(t *rapid.T) c16History {
-		return c16History{Ops: rapid.SliceOfN(c16GenHOp(), 2, 14).Draw(t, "ops")}
+		return c16History{Ops: rapid.SliceOfN(c16GenHOp(), 3, 16).Draw(t, "ops")}
 	})
 }
 
@@ -330,7 +330,7 @@ func TestVerif_C16_restart(t *testing.T) {
 		}
 		return
 	}
-	verifkit.RapidSetup(60, 600)
+	verifkit.RapidSetup(120, 1200)
 	rapid.Check(t, func(rt *rapid.T) {
 		h := c16GenHistory().Draw(rt, "history")
 		h, excluded := c16HistoryKnown(h)
